@@ -1,3 +1,368 @@
+/-
+Proofs for C13: the model's results do not depend on the configuration (`strict`,
+`storeInMemory`, `givenSize`).
+-/
 import SqliteDissect.Model.Wal
+import SqliteDissect.Proofs.Layout
+
 namespace SqliteDissect.Proofs.Config
+open SqliteDissect SqliteDissect.Model
+
+/-! ### generic helpers -/
+
+theorem bind_ok {ε α β : Type} {x : Except ε α} {f : α → Except ε β} {b : β}
+    (h : (x >>= f) = .ok b) : ∃ a, x = .ok a ∧ f a = .ok b := by
+  cases x with
+  | error e => cases h
+  | ok a => exact ⟨a, rfl, h⟩
+
+theorem bind_mono {ε α β : Type} {x y : Except ε α} {f g : α → Except ε β} {b c : β}
+    (hx : ∀ a, x = .ok a → y = .ok a)
+    (hf : ∀ a, x = .ok a → f a = .ok b → g a = .ok c)
+    (h : (x >>= f) = .ok b) : (y >>= g) = .ok c := by
+  obtain ⟨a, ha, hfa⟩ := bind_ok h
+  rw [hx a ha]
+  exact hf a ha hfa
+
+/-- if the relaxed step agrees with the strict step whenever the strict one succeeds, so do
+the folds -/
+theorem foldlM_mono {ε σ ι : Type} (f g : σ → ι → Except ε σ)
+    (hfg : ∀ s i r, f s i = .ok r → g s i = .ok r) :
+    ∀ (l : List ι) (init r : σ), l.foldlM f init = .ok r → l.foldlM g init = .ok r := by
+  intro l
+  induction l with
+  | nil => intro init r h; simpa using h
+  | cons x xs ih =>
+    intro init r h
+    rw [List.foldlM_cons] at h ⊢
+    obtain ⟨s, hs, h⟩ := bind_ok h
+    rw [hfg _ _ _ hs]
+    exact ih _ _ h
+
+/-! ### functions that take the version interface but never read `strict` -/
+
+section
+variable (ps vn : Nat) (s1 s2 : Bool) (gd : Nat → Nat → Option Nat → Py Buf) (pv po : Nat → Py Nat)
+
+theorem parseOverflowPage_strict :
+    parseOverflowPage ⟨ps, vn, s1, gd, pv, po⟩ = parseOverflowPage ⟨ps, vn, s2, gd, pv, po⟩ := rfl
+
+theorem overflowChainLoop_strict (fuel : Nat) (cur : OvflPage) (rem : Int) (acc : List OvflPage) :
+    overflowChainLoop ⟨ps, vn, s1, gd, pv, po⟩ fuel cur rem acc
+      = overflowChainLoop ⟨ps, vn, s2, gd, pv, po⟩ fuel cur rem acc := by
+  induction fuel generalizing cur rem acc with
+  | zero => rfl
+  | succ n ih =>
+    simp only [overflowChainLoop, parseOverflowPage_strict ps vn s1 s2 gd pv po, ih]
+
+theorem parseOverflowChain_strict :
+    parseOverflowChain ⟨ps, vn, s1, gd, pv, po⟩ = parseOverflowChain ⟨ps, vn, s2, gd, pv, po⟩ := by
+  funext first ob
+  simp only [parseOverflowChain, parseOverflowPage_strict ps vn s1 s2 gd pv po,
+    overflowChainLoop_strict ps vn s1 s2 gd pv po]
+
+theorem parsePayloadCell_strict :
+    parsePayloadCell ⟨ps, vn, s1, gd, pv, po⟩ = parsePayloadCell ⟨ps, vn, s2, gd, pv, po⟩ := by
+  funext kind page index start lc rowid p pl
+  simp only [parsePayloadCell, parseOverflowChain_strict ps vn s1 s2 gd pv po]
+
+theorem parseCellLocal_strict :
+    parseCellLocal ⟨ps, vn, s1, gd, pv, po⟩ = parseCellLocal ⟨ps, vn, s2, gd, pv, po⟩ := by
+  funext kind page index start
+  cases kind <;> simp only [parseCellLocal, parsePayloadCell_strict ps vn s1 s2 gd pv po]
+
+end
+
+
+section
+variable (ps vn : Nat) (s1 s2 : Bool) (gd : Nat → Nat → Option Nat → Py Buf) (pv po : Nat → Py Nat)
+
+theorem parseFreelist_strict (fuel number : Nat) :
+    parseFreelist ⟨ps, vn, s1, gd, pv, po⟩ fuel number = parseFreelist ⟨ps, vn, s2, gd, pv, po⟩ fuel number := by
+  induction fuel generalizing number with
+  | zero => rfl
+  | succ n ih => simp only [parseFreelist, ih]
+
+theorem parsePtrmapPage_strict :
+    parsePtrmapPage ⟨ps, vn, s1, gd, pv, po⟩ = parsePtrmapPage ⟨ps, vn, s2, gd, pv, po⟩ := rfl
+
+theorem createPtrmapPagesLoop_strict (D E fuel p n : Nat) (acc : List PtrmapPage) :
+    createPtrmapPagesLoop ⟨ps, vn, s1, gd, pv, po⟩ D E fuel p n acc
+      = createPtrmapPagesLoop ⟨ps, vn, s2, gd, pv, po⟩ D E fuel p n acc := by
+  induction fuel generalizing p n acc with
+  | zero => rfl
+  | succ k ih => simp only [createPtrmapPagesLoop, ih, parsePtrmapPage_strict ps vn s1 s2 gd pv po]
+
+theorem createPtrmapPages_strict :
+    createPtrmapPages ⟨ps, vn, s1, gd, pv, po⟩ = createPtrmapPages ⟨ps, vn, s2, gd, pv, po⟩ := by
+  funext D
+  simp only [createPtrmapPages, createPtrmapPagesLoop_strict ps vn s1 s2 gd pv po]
+
+theorem parseMasterSchema_strict :
+    parseMasterSchema ⟨ps, vn, s1, gd, pv, po⟩ = parseMasterSchema ⟨ps, vn, s2, gd, pv, po⟩ := rfl
+end
+
+/-! ### the b-tree parser -/
+
+theorem tree_aux (ps vn : Nat) (gd : Nat → Nat → Option Nat → Py Buf) (pv po : Nat → Py Nat) :
+    ∀ (fuel number : Nat) (cls : PageType) (t : List BPage),
+      parseBTree ⟨ps, vn, true, gd, pv, po⟩ fuel number cls = .ok t →
+      parseBTree ⟨ps, vn, false, gd, pv, po⟩ fuel number cls = .ok t := by
+  intro fuel
+  induction fuel using Nat.strongRecOn with
+  | _ fuel ih =>
+    intro number cls t h
+    cases fuel with
+    | zero => rw [parseBTree] at h; cases h
+    | succ fuel =>
+      rw [parseBTree] at h ⊢
+      dsimp only at h ⊢
+      refine bind_mono (fun _ e => e) (fun pv1 _ h => ?_) h
+      refine bind_mono (fun _ e => e) (fun off _ h => ?_) h
+      refine bind_mono (fun _ e => e) (fun page _ h => ?_) h
+      refine bind_mono (fun _ e => e) (fun ptype _ h => ?_) h
+      refine bind_mono (fun _ e => e) (fun hdr _ h => ?_) h
+      split at h
+      · cases h
+      rename_i hc
+      rw [if_neg hc]
+      refine bind_mono ?_ (fun st _ h => ?_) h
+      · intro st hst
+        rw [parseCellLocal_strict ps vn false true gd pv po]
+        refine foldlM_mono _ _ ?_ _ _ _ hst
+        rintro ⟨cells, subs, total⟩ idx r h
+        dsimp only at h ⊢
+        refine bind_mono (fun _ e => e) (fun cellOff _ h => ?_) h
+        refine bind_mono (fun _ e => e) (fun c _ h => ?_) h
+        refine bind_mono ?_ (fun _ _ e => e) h
+        intro sub hsub
+        split at hsub
+        · refine bind_mono (fun _ e => e) (fun fb _ h => ?_) hsub
+          split at h
+          · split at h
+            · cases h
+            · rename_i hlt
+              rw [if_neg hlt]
+              exact ih _ (by simp only [cellDescentFrames]; omega) _ _ _ h
+          · cases h
+        · exact hsub
+      · obtain ⟨cells, subs, cellTotal⟩ := st
+        dsimp only at h ⊢
+        refine bind_mono (fun _ e => e) (fun fbs _ h => ?_) h
+        refine bind_mono (fun L hL => Layout.strict_irrelevant _ _ _ _ _ _ _ L hL) (fun lay _ h => ?_) h
+        split at h
+        · rename_i hint
+          rw [if_pos hint]
+          split at h
+          · cases h
+          · split at h
+            · cases h
+            · rename_i hrm
+              rw [if_neg hrm]
+              refine bind_mono (fun _ e => e) (fun fb _ h => ?_) h
+              split at h
+              · split at h
+                · cases h
+                · rename_i hlt
+                  rw [if_neg hlt]
+                  refine bind_mono (fun rsub hr => ih _ (by simp only [rightMostDescentFrames]; omega) _ _ _ hr) (fun _ _ e => e) h
+              · cases h
+        · rename_i hint
+          rw [if_neg hint]
+          exact h
+
+theorem tree_strict_irrelevant (v : VersionIf) (fuel number : Nat) (cls : PageType) (t : List BPage)
+    (h : parseBTree { v with strict := true } fuel number cls = .ok t) :
+    parseBTree { v with strict := false } fuel number cls = .ok t := by
+  cases v with
+  | mk ps vn s gd pv po => exact tree_aux ps vn gd pv po fuel number cls t h
+
+theorem getBTreeRoot_aux (ps vn : Nat) (gd : Nat → Nat → Option Nat → Py Buf) (pv po : Nat → Py Nat)
+    (frames number : Nat) (t : List BPage)
+    (h : getBTreeRoot ⟨ps, vn, true, gd, pv, po⟩ frames number = .ok t) :
+    getBTreeRoot ⟨ps, vn, false, gd, pv, po⟩ frames number = .ok t := by
+  unfold getBTreeRoot at h ⊢
+  dsimp only at h ⊢
+  refine bind_mono (fun _ e => e) (fun t1 _ h => ?_) h
+  refine bind_mono (fun _ e => e) (fun t2 _ h => ?_) h
+  split at h
+  · cases h
+  rename_i hsz
+  rw [if_neg hsz]
+  split at h
+  · rename_i hb; rw [if_pos hb]; exact tree_aux ps vn gd pv po _ _ _ _ h
+  rename_i hb; rw [if_neg hb]
+  split at h
+  · rename_i hb; rw [if_pos hb]; exact tree_aux ps vn gd pv po _ _ _ _ h
+  rename_i hb; rw [if_neg hb]
+  split at h
+  · rename_i hb; rw [if_pos hb]; exact tree_aux ps vn gd pv po _ _ _ _ h
+  rename_i hb; rw [if_neg hb]
+  split at h
+  · rename_i hb; rw [if_pos hb]; exact tree_aux ps vn gd pv po _ _ _ _ h
+  · cases h
+
+/-! ### the database constructor -/
+
+theorem pagesCensus_aux (db : Database) (ps vn : Nat) (gd : Nat → Nat → Option Nat → Py Buf) (pv po : Nat → Py Nat)
+    (frames : Nat) (d : List (Nat × String))
+    (h : pagesCensus db ⟨ps, vn, true, gd, pv, po⟩ frames = .ok d) :
+    pagesCensus db ⟨ps, vn, false, gd, pv, po⟩ frames = .ok d := by
+  unfold pagesCensus at h ⊢
+  dsimp only at h ⊢
+  refine bind_mono ?_ (fun _ _ e => e) h
+  intro d' hd'
+  refine foldlM_mono _ _ ?_ _ _ _ hd'
+  intro s i r h
+  refine bind_mono (fun t ht => getBTreeRoot_aux ps vn gd pv po _ _ t ht) (fun _ _ e => e) h
+
+/-- the file size `FileHandle` believes -/
+def fsizeOf (gs : Option Nat) (sz : Nat) : Nat :=
+  match gs with
+  | some 0 => sz
+  | some n => n
+  | none => sz
+
+/-- `openDatabase` with the three configuration inputs it reads made explicit -/
+def openCore (strict sim : Bool) (frames : Nat) (file : Buf) (fsize : Nat) : Py (Database × VersionIf) := do
+  if fsize > Generated.LOCK_BYTE_PAGE_START_OFFSET then .error .notImplemented
+  else
+    let hdr ← parseDbHeader (file.slice 0 Generated.SQLITE_DATABASE_HEADER_LENGTH)
+    let fh : FileH := ⟨fsize, file⟩
+    let ps := hdr.pageSize
+    let dsize ← (if hdr.sizeInPages = 0 then
+        if hdr.sqliteVersion ≥ Generated.SQLITE_3_7_0_VERSION_NUMBER then (.error .parseError : Py DbSize)
+        else pure ⟨fsize, ps⟩
+      else if hdr.versionValidFor ≠ hdr.changeCounter then pure ⟨fsize, ps⟩
+      else if hdr.sizeInPages * ps ≥ fsize + ps then .error .parseError
+      else pure ⟨hdr.sizeInPages, 1⟩)
+    let v : VersionIf :=
+      { pageSize := ps, versionNumber := 0, strict := strict,
+        getData := dbGetData ps dsize fh,
+        pageVersion := fun p => if 1 ≤ p ∧ p ≤ dsize.floor then .ok 0 else .error .keyError,
+        pageOffset := fun p => if p < 1 ∨ p > dsize.floor then .error .valueError else .ok ((p - 1) * ps) }
+    let updated := (List.range dsize.floor).map (· + 1)
+    let fl ← (if hdr.firstFreelistTrunk ≠ 0 then parseFreelist v frames hdr.firstFreelistTrunk else pure [])
+    let (updated, flNums, observed) ← fl.foldlM (fun (st : List Nat × List Nat × Nat) t => do
+        let (u, nums, obs) := st
+        let u ← listRemove u t.number
+        pure (u, nums ++ [t.number] ++ t.leaves, obs + 1 + t.leaves.length)) (updated, [], 0)
+    if observed ≠ hdr.freelistPages then .error .parseError
+    else
+      let pm ← (if hdr.largestRoot ≠ 0 then
+          if ¬ dsize.exact then (.error .outsideModel : Py (List PtrmapPage))
+          else createPtrmapPages v dsize.floor
+        else pure [])
+      let updated ← pm.foldlM (fun u pg => listRemove u pg.number) updated
+      let rootTree ← getBTreeRoot v frames 1
+      let ms ← parseMasterSchema v hdr.textEncoding rootTree
+      let updated ← ms.pages.foldlM (fun u pn => listRemove u pn.1) updated
+      do
+        let db : Database := ⟨hdr, ps, dsize, hdr.textEncoding, fl, flNums, pm, rootTree, ms, updated⟩
+        if sim then do
+          let _ ← pagesCensus db v frames
+          pure (db, v)
+        else pure (db, v)
+
+theorem openDatabase_eq_core (cfg : Config) (file : Buf) :
+    openDatabase cfg file
+      = openCore cfg.strict cfg.storeInMemory cfg.frames file (fsizeOf cfg.givenSize file.size) := rfl
+
+theorem openCore_strict (sim : Bool) (frames : Nat) (file : Buf) (fsize : Nat) (db : Database) (v : VersionIf)
+    (h : openCore true sim frames file fsize = .ok (db, v)) :
+    openCore false sim frames file fsize = .ok (db, { v with strict := false }) := by
+  unfold openCore at h ⊢
+  dsimp only at h ⊢
+  split at h
+  · cases h
+  rename_i hsz
+  rw [if_neg hsz]
+  refine bind_mono (fun _ e => e) (fun hdr _ h => ?_) h
+  refine bind_mono (fun _ e => e) (fun dsize _ h => ?_) h
+  rw [parseFreelist_strict _ _ false true]
+  refine bind_mono (fun _ e => e) (fun fl _ h => ?_) h
+  refine bind_mono (fun _ e => e) (fun st _ h => ?_) h
+  split at h
+  · cases h
+  rename_i hobs
+  rw [if_neg hobs]
+  rw [createPtrmapPages_strict _ _ false true]
+  refine bind_mono (fun _ e => e) (fun pm _ h => ?_) h
+  refine bind_mono (fun _ e => e) (fun upd _ h => ?_) h
+  refine bind_mono (fun t ht => getBTreeRoot_aux _ _ _ _ _ _ _ t ht) (fun rootTree _ h => ?_) h
+  rw [parseMasterSchema_strict _ _ false true]
+  refine bind_mono (fun _ e => e) (fun ms _ h => ?_) h
+  refine bind_mono (fun _ e => e) (fun upd2 _ h => ?_) h
+  split at h
+  · rename_i hsim
+    rw [if_pos hsim]
+    obtain ⟨d, hd, h⟩ := bind_ok h
+    rw [pagesCensus_aux _ _ _ _ _ _ _ d hd]
+    cases h
+    rfl
+  · rename_i hsim
+    rw [if_neg hsim]
+    cases h
+    rfl
+
+theorem database_strict_irrelevant (cfg : Config) (file : Buf) (db : Database) (v : VersionIf)
+    (h : openDatabase { cfg with strict := true } file = .ok (db, v)) :
+    ∃ v', openDatabase { cfg with strict := false } file = .ok (db, v') := by
+  rw [openDatabase_eq_core] at h ⊢
+  exact ⟨_, openCore_strict _ _ _ _ _ _ h⟩
+
+theorem openCore_sim (strict : Bool) (frames : Nat) (file : Buf) (fsize : Nat) (db : Database) (v : VersionIf)
+    (h : openCore strict true frames file fsize = .ok (db, v)) :
+    openCore strict false frames file fsize = .ok (db, v) := by
+  unfold openCore at h ⊢
+  dsimp only at h ⊢
+  split at h
+  · cases h
+  rename_i hsz
+  rw [if_neg hsz]
+  refine bind_mono (fun _ e => e) (fun hdr _ h => ?_) h
+  refine bind_mono (fun _ e => e) (fun dsize _ h => ?_) h
+  refine bind_mono (fun _ e => e) (fun fl _ h => ?_) h
+  refine bind_mono (fun _ e => e) (fun st _ h => ?_) h
+  split at h
+  · cases h
+  rename_i hobs
+  rw [if_neg hobs]
+  refine bind_mono (fun _ e => e) (fun pm _ h => ?_) h
+  refine bind_mono (fun _ e => e) (fun upd _ h => ?_) h
+  refine bind_mono (fun _ e => e) (fun rootTree _ h => ?_) h
+  refine bind_mono (fun _ e => e) (fun ms _ h => ?_) h
+  refine bind_mono (fun _ e => e) (fun upd2 _ h => ?_) h
+  rw [if_pos rfl] at h
+  obtain ⟨d, _, h⟩ := bind_ok h
+  exact h
+
+theorem database_store_in_memory_irrelevant (cfg : Config) (file : Buf) (db : Database) (v : VersionIf)
+    (h : openDatabase { cfg with storeInMemory := true } file = .ok (db, v)) :
+    openDatabase { cfg with storeInMemory := false } file = .ok (db, v) := by
+  rw [openDatabase_eq_core] at h ⊢
+  exact openCore_sim _ _ _ _ _ _ h
+
+theorem database_given_size_irrelevant (cfg : Config) (file : Buf) (_hs : 0 < file.size) :
+    openDatabase { cfg with givenSize := some file.size } file
+      = openDatabase { cfg with givenSize := none } file := by
+  rw [openDatabase_eq_core, openDatabase_eq_core]
+  have : fsizeOf (some file.size) file.size = fsizeOf none file.size := by
+    unfold fsizeOf
+    split <;> simp_all
+  show openCore _ _ _ _ (fsizeOf (some file.size) file.size) = openCore _ _ _ _ (fsizeOf none file.size)
+  rw [this]
+
+theorem leaf_cells_sublist (t : List BPage) :
+    (leafCells t).Sublist (t.flatMap (·.cells)) := by
+  unfold leafCells
+  induction t with
+  | nil => simp
+  | cons p ps ih =>
+    simp only [List.flatMap_cons]
+    refine List.Sublist.append ?_ ih
+    split
+    · exact List.nil_sublist _
+    · exact List.Sublist.refl _
+
 end SqliteDissect.Proofs.Config
